@@ -514,10 +514,16 @@ func (vfs *MemFS) MkdirAll(path string, perm fs.FileMode) error {
 	}
 
 	if parent.removed {
-		// The directory was removed since the path was resolved (it may be the root of a view : no second walk).
+		// The directory was removed since the path was resolved.
 		parent.mu.Unlock()
 
-		return &fs.PathError{Op: op, Path: path, Err: vfs.err.NoSuchDir}
+		if parent == vfs.rootNode {
+			// It is the root directory of this view : a second walk would end here again.
+			return &fs.PathError{Op: op, Path: path, Err: vfs.err.NoSuchDir}
+		}
+
+		// MkdirAll creates the missing directories again : the path is resolved once more.
+		return vfs.MkdirAll(path, perm)
 	}
 
 	if vfs.isNotExist(err) && parent.children[pi.Part()] != nil {
